@@ -52,6 +52,8 @@ def docTol : Rat := 1 / 1000000
 def slack : Rat := docTol + eps
 
 def rowsDistB (t : Tab3) : Bool := t.all fun m => m.all (rowDistB slack)
+/-- no stored entry is negative (exact on the sign: `valid_no_negative`; the sparse validator tests signs since fixes/C05-2) -/
+def noNegB (t : Tab3) : Bool := t.all fun m => m.all fun row => row.all fun v => !(XRat.lt v (.fin 0))
 
 /-- rows whose accept/reject decision is within 1e-9 of the tolerance boundary cannot be compared between
     double arithmetic and exact arithmetic -/
@@ -114,17 +116,21 @@ def opLine : P String := do
         v.failIf (threw && inUnitB d) s!"{comp} rejects_valid_discount {d}"
     | .setT3D t =>
         let v := v.failIf (!threw && !(rowsDistB post.T)) s!"{comp} stored_row_not_distribution"
+        let v := v.failIf (!threw && !(noNegB post.T)) s!"{comp} stored_negative_entry"
         v.failIf (!threw && !(all3 A S S (fun a s s1 => match get3 post.T a s s1, get3 t s a s1 with
             | .fin x, .fin y => decide (absQ (x - y) ≤ tol) | _, _ => false))) s!"{comp} table_not_the_supplied_one"
     | .setTEigen t =>
         let v := v.failIf (!threw && !(rowsDistB post.T)) s!"{comp} stored_row_not_distribution"
+        let v := v.failIf (!threw && !(noNegB post.T)) s!"{comp} stored_negative_entry"
         v.failIf (!threw && !(all3 A S S (fun a s s1 => xeq (get3 post.T a s s1) (get3 t a s s1)))) s!"{comp} table_not_the_supplied_one"
     | .setO3D o =>
         let v := v.failIf (!threw && !(rowsDistB post.Om)) s!"{comp} stored_row_not_distribution"
+        let v := v.failIf (!threw && !(noNegB post.Om)) s!"{comp} stored_negative_entry"
         v.failIf (!threw && !(all3 A S O (fun a s z => match get3 post.Om a s z, get3 o s a z with
             | .fin x, .fin y => decide (absQ (x - y) ≤ tol) | _, _ => false))) s!"{comp} table_not_the_supplied_one"
     | .setOEigen o =>
         let v := v.failIf (!threw && !(rowsDistB post.Om)) s!"{comp} stored_row_not_distribution"
+        let v := v.failIf (!threw && !(noNegB post.Om)) s!"{comp} stored_negative_entry"
         v.failIf (!threw && !(all3 A S O (fun a s z => xeq (get3 post.Om a s z) (get3 o a s z)))) s!"{comp} table_not_the_supplied_one"
     | .setR3D r =>
         -- expected reward w.r.t. the object's own transition table; the sparse class may drop |value| ≤ tol
@@ -235,7 +241,9 @@ def ctorLine : P String := do
         let compOm := if which == "c3d" then obsCls ko ++ "::setObservationFunction3D" else compO
         let v := v.failIf (!(inUnitB p.disc)) s!"{compD} {discKind p.disc} {p.disc}"
         let v := v.failIf (!(rowsDistB p.T)) s!"{compT} stored_row_not_distribution"
+        let v := v.failIf (!(noNegB p.T)) s!"{compT} stored_negative_entry"
         let v := v.failIf (pomdp && !(rowsDistB p.Om)) s!"{compOm} stored_row_not_distribution"
+        let v := v.failIf (pomdp && !(noNegB p.Om)) s!"{compOm} stored_negative_entry"
         match srcInfo with
         | none => v
         | some sp =>
@@ -268,9 +276,9 @@ def isprobLine : P String := do
   -- specification: every entry finite and non-negative, sum within the tolerance of one
   let spec := row.all (fun v => match v with | .fin q => decide (0 ≤ q) | _ => false) &&
               (match sumX row with | .fin s => decide (absQ (s - 1) ≤ tol) | _ => false)
-  -- the sparse implementation tolerates negative entries down to -tol/2 in total (|.|-sum test)
-  let specSparse := row.all isFin &&
-              (match sumX row, sumX (row.map xabs) with | .fin s, .fin t => decide (absQ (s - 1) ≤ tol) && decide (absQ (t - 1) ≤ tol) | _, _ => false)
+  -- one specification for the three implementations: the sparse validator tests the sign of the stored values since fixes/C05-2
+  -- (as first read it let entries in [-tol/2, 0) through: `isProbSparseAbs_accepts_negative`)
+  let specSparse := spec
   let v : Verdict := { tag := if spec then "isprob valid" else "isprob invalid" }
   let v := v.failIf (il != spec) s!"isProbability<loop> wrong_answer {il}"
   let v := v.failIf (id != spec) s!"isProbability(Matrix2D) wrong_answer {id}"
@@ -391,6 +399,7 @@ def loadLine : P String := do
   let v := v.failIf (iout != .loaded && !(post == pre)) s!"{comp} failed_load_changed_object"
   let v := v.failIf (iout == .loaded && !(inUnitB post.disc)) s!"{comp} {discKind post.disc} {post.disc}"
   let v := v.failIf (iout == .loaded && !(rowsDistB post.T)) s!"{comp} stored_row_not_distribution"
+  let v := v.failIf (iout == .loaded && !(noNegB post.T)) s!"{comp} stored_negative_entry"
   let v := v.failIf (iout == .loaded && !(post.T == t && post.R == r && xeq post.disc d)) s!"{comp} loaded_table_not_supplied"
   let v := v.diffIf (mo != iout) s!"{comp} outcome model={repr mo} impl={repr iout}"
   let v := v.diffIf (mo == iout && !(stAgree xeq ms post)) s!"{comp} state_after_load"
